@@ -1,7 +1,7 @@
 (* C01 / C02 — pinned statements only.  Each is closed by [exact] of a lemma proved in
    Coll/Monitor.v, Coll/Run.v or Coll/DurableProofs*.v and followed by Print Assumptions. *)
 From Coq Require Import List ZArith String Bool Arith.
-From Verif Require Import Coll.Tags gen.Gen_CollFlush Coll.Monitor Coll.Run Coll.Durable Coll.DurableProofs Coll.DurableOps.
+From Verif Require Import Coll.Tags gen.Gen_CollFlush Coll.Monitor Coll.Run Coll.Durable Coll.DurableProofs Coll.DurableOps Coll.DurableFlush Coll.DurableReach.
 Import ListNotations.
 
 (* ------------------------------------------------------------------ generated facts (T) *)
@@ -53,6 +53,16 @@ Theorem C01_trace_monitor_sound :
   forall fuel ps l, mt fuel ps l = true -> Matches ps l.
 Proof. exact mt_sound. Qed.
 Print Assumptions C01_trace_monitor_sound.
+
+(* The reopen repair scan — the only recovery path of an acknowledged, unflushed add — fetches
+   EVERY id of (checkpoint, max(max_document_id, watermark)]: the window of the model is built
+   from the generated loop bounds and the generated fact that the loop body has no early exit. *)
+Theorem C01_repair_scan_probes_whole_window :
+  repair_from_checkpoint_plus_one && repair_upto_max_of_maxid_and_watermark &&
+  repair_scan_no_early_exit && repair_scan_found_doc_is_repaired = true /\
+  forall ckpt top id, ckpt < id <= top -> In id (repair_window ckpt top).
+Proof. split; [reflexivity | exact repair_window_complete]. Qed.
+Print Assumptions C01_repair_scan_probes_whole_window.
 
 (* ------------------------------------------------------------------ recovery (protocol model) *)
 (* reopen_total + C02 after recovery: from ANY backend state satisfying the durable invariant
@@ -124,11 +134,79 @@ Theorem C01_flush_and_maintenance_write_no_document :
 Proof. exact maintenance_writes_no_document. Qed.
 Print Assumptions C01_flush_and_maintenance_write_no_document.
 
-(* C01_flush_crash_prefix_partial — NOT proved: every micro-step prefix of flush (indexes, meta,
-   ids, checkpoint, retire) started from a Consistent handle preserves [Inv]; together with the
-   theorems above it would close the induction over arbitrarily nested crashes
-   (reachable_Inv).  It is explored on the implementation instead (every crash point inside
-   flush and inside the flush that ends a recovery, nested). *)
+(* Every micro-step prefix of flush (indexes, meta, ids, checkpoint, retire — the generated order),
+   started by a consistent live handle, leaves a backend satisfying the durable invariant: a crash
+   anywhere inside a flush — including the flush that ends a recovery — is recoverable. *)
+Theorem C01_flush_crash_prefix_recoverable :
+  forall (D K : Type) (Keq : forall a b : K, {a = b} + {a <> b}) (derive : nat -> D -> list K) (stride : nat)
+         (b : backend D K) (h : handle K),
+    Inv D K derive b -> Consistent D K derive b h -> Live D K b h ->
+    forall k, Inv D K derive (crash k (op_steps Keq derive stride (OFlush D) h) b).
+Proof. exact flush_prefix_Inv. Qed.
+Print Assumptions C01_flush_crash_prefix_recoverable.
+
+(* C02 on a live handle: every completed add / update / remove / flush keeps every registered
+   index exactly derive(stored documents) and the id set exactly the stored documents. *)
+Theorem C02_completed_operation_keeps_consistent :
+  forall (D K : Type) (Keq : forall a b : K, {a = b} + {a <> b}) (derive : nat -> D -> list K) (stride : nat)
+         (b : backend D K) (h : handle K) (o : op D),
+    step_ok D K b o -> Sync D K derive b h ->
+    Sync D K derive (brun b (op_steps Keq derive stride o h)) (hrun Keq derive h (op_steps Keq derive stride o h)).
+Proof. exact op_complete. Qed.
+Print Assumptions C02_completed_operation_keeps_consistent.
+
+(* THE induction: histories of add / update / remove / flush of any length, a power loss after any
+   micro-step prefix of any of them, a kill between operations, reopen, and again — nested to any
+   depth (the flush that ends a recovery is an OFlush of the reopened handle).  Every reachable
+   live world is consistent (C02) and every reachable crashed backend satisfies the invariant;
+   F (the largest max id an acknowledged flush covered) never exceeds the durable max id. *)
+Theorem C01_reachable_invariant :
+  forall (D K : Type) (Keq : forall a b : K, {a = b} + {a <> b}) (derive : nat -> D -> list K) (stride : nat)
+         (w : world D K) (F : nat),
+    Reach D K Keq derive stride w F ->
+    match w with
+    | WLive _ _ b h => Sync D K derive b h /\ F <= mx_of D K b
+    | WDown _ _ b => Inv D K derive b /\ F <= mx_of D K b
+    end.
+Proof. exact reachable_ok. Qed.
+Print Assumptions C01_reachable_invariant.
+
+(* reopen_total after any history and any nesting of crashes; the reopened handle answers every
+   index exactly from the stored documents *)
+Theorem C01_reachable_backend_reopens :
+  forall (D K : Type) (Keq : forall a b : K, {a = b} + {a <> b}) (derive : nat -> D -> list K) (stride : nat)
+         (b : backend D K) (F : nat),
+    Reach D K Keq derive stride (WDown D K b) F ->
+    exists h, open Keq derive b = Some h /\ Consistent D K derive b h.
+Proof. exact reachable_reopens. Qed.
+Print Assumptions C01_reachable_backend_reopens.
+
+(* id_not_reused, history level: in every reachable live world the id the next add allocates is
+   above every id an acknowledged flush ever covered, and owns no document object *)
+Theorem C01_id_not_reused :
+  forall (D K : Type) (Keq : forall a b : K, {a = b} + {a <> b}) (derive : nat -> D -> list K) (stride : nat)
+         (b : backend D K) (h : handle K) (F : nat),
+    Reach D K Keq derive stride (WLive D K b h) F ->
+    F < S (h_max h) /\ b_docs b (S (h_max h)) = None.
+Proof. exact id_not_reused. Qed.
+Print Assumptions C01_id_not_reused.
+
+(* recovery_idempotent: crash the flush that ends a recovery after any prefix and recover again:
+   the same registered indexes, the same ids, the same postings *)
+Theorem C01_recovery_idempotent :
+  forall (D K : Type) (Keq : forall a b : K, {a = b} + {a <> b}) (derive : nat -> D -> list K) (stride : nat)
+         (b : backend D K) (h : handle K),
+    Inv D K derive b -> open Keq derive b = Some h ->
+    forall k, exists h', open Keq derive (crash k (op_steps Keq derive stride (OFlush D) h) b) = Some h' /\
+      h_reg h' = h_reg h /\
+      (forall id, In id (h_ids h') <-> In id (h_ids h)) /\
+      (forall i, In i (h_reg h) -> forall k0 id, In (k0, id) (h_idx h' i) <-> In (k0, id) (h_idx h i)).
+Proof. exact recovery_idempotent. Qed.
+Print Assumptions C01_recovery_idempotent.
+
+(* Still outside the induction (explored on the implementation only): save_extension and index
+   creation / removal as steps of a history (their prefixes are proved to write no document), and
+   the open callback. *)
 
 (* ------------------------------------------------------------------ the order matters *)
 (* A concrete instance (documents and keys are numbers, derive i d = [d + i]): one stored document
